@@ -103,4 +103,78 @@ theorem set_same_keeps_index (w : World) (p : SlabID) (i : Nat) (wr : Nat) (cx :
     rw [this] at hp'; cases hp'
     rw [hsame x wr hov rfl]; exact h2
 
+/-! ### 3. After the detaching operation: the restated theorems (arrays) -/
+
+/-- In a valid world every notification from a detached root (a live container that nobody refers
+    to) is a no-op: no container, no index table, no storage effect changes; at most the stale
+    closure of the notifier is dropped. -/
+theorem detached_root_notification_is_noop (D : SlabID → DigestFn 4) (w : World) (ctr : Nat) (x : SlabID)
+    (H : WorldOk' D w ctr) (hx : DetachedRoot w x) :
+    ∀ fuel cx2 w2 cx2', notifyParent fuel w x cx2 = .ok (w2, cx2') →
+      cx2' = cx2 ∧ (w2 = w ∨ w2 = { w with hinfo := AList.erase w.hinfo x }) :=
+  fun fuel cx2 w2 cx2' h =>
+    C10W.detached_root_notification_is_noop D (fun _ => False) fuel w x cx2 w2 cx2' ctr H hx h
+
+/-- RESTATEMENT of `C11.replaced_slot_leaves_parent_unchanged` with hypotheses that reachable worlds
+    satisfy.  A child container `x` of the array `p` is OVERWRITTEN by another container `y`
+    (`Array.Set` through a current handle, in a valid world; `y` an unreferenced live container):
+    (a) slot `i` of `p` now holds ANOTHER container (`y ≠ x`);
+    (b) the `mutableElementIndex` entry of `x` is gone (array.go:389-398);
+    (c) `x` is a detached root: live, referenced by nobody, standalone, same data, same value ID;
+    (d) the global invariant holds afterwards;
+    (e) EVERY later notification from `x` (whatever its stale closure says) changes no container,
+        no index table and no storage effect: the former parent's content, size bookkeeping and
+        persisted form are untouched; at most the closure of `x` is cleared. -/
+theorem overwritten_child_leaves_parent_unchanged (D : SlabID → DigestFn 4) (w : World) (p : SlabID) (i : Nat)
+    (y : SlabID) (wr : Nat) (cx : Ctx) (old : Elem) (w' : World) (cx' : Ctx) (x : SlabID) (c : Cont)
+    (H : WorldOk' D w cx.ctr) (hh : HandleOk w p) (hv : WValOk w p (maxInlineArr w.T) (.child y wr))
+    (h : w.arrSet p i (.child y wr) cx = .ok (old, w', cx')) (hx : old.pay = .ref x) (hc : w.cont? x = some c) :
+    (∃ a' e, w'.cont? p = some (.arr a') ∧ a'.toList[i]? = some e ∧ e.pay = .ref y ∧ y ≠ x) ∧
+    AList.find? (w'.idxOf p) x = none ∧
+    (DetachedRoot w' x ∧ ∃ c', w'.cont? x = some c' ∧ c'.isInlined = false ∧ c'.vid = c.vid ∧
+      c'.storedElems = c.storedElems) ∧
+    WorldOk' D w' cx'.ctr ∧
+    (∀ fuel cx2 w2 cx2', notifyParent fuel w' x cx2 = .ok (w2, cx2') →
+      cx2' = cx2 ∧ (w2 = w' ∨ w2 = { w' with hinfo := AList.erase w'.hinfo x })) := by
+  obtain ⟨H', _, hset, _, _⟩ := C10W.worldOk'_arrSet D w p i _ cx old w' cx' H hh hv h
+  obtain ⟨a, a', old0, e, hpa, hpa', hold0, hl, hpay, hb, _, hch⟩ := hset
+  have hx0 : old0.pay = .ref x := by rw [← hpay]; exact hx
+  have hlt : i < a.toList.length := (List.getElem?_eq_some_iff.mp hold0).1
+  -- `x` is referenced (by `p`), `y` is not
+  have hyx : y ≠ x := by
+    rintro rfl
+    exact hv.2.1 p (holds_arr_of_mem hpa (List.mem_of_getElem? hold0) hx0)
+  have hdet := hb.detached hx0 hc
+  refine ⟨⟨a', e, hpa', ?_, (hch y wr rfl).1, hyx⟩, ?_, hdet, H', detached_root_notification_is_noop D w' _ x H' hdet.1⟩
+  · rw [hl, List.getElem?_set_self hlt]
+  · refine set_forgets_index w p i _ cx old x w' cx' h hx (by rw [hc]; rfl) (fun wr' he => ?_)
+    cases he; exact hyx rfl
+
+/-- `Array.Remove` of a child container `x` from the array `p` (current handle, valid world):
+    (a) `p` holds the remaining elements, none of which refers to `x`;
+    (b) the `mutableElementIndex` entry of `x` is gone (array.go:527-530);
+    (c) `x` is a detached root: live, referenced by nobody, standalone, same data, same value ID;
+    (d) the global invariant holds afterwards;
+    (e) every later notification from `x` changes no container, no index table and no storage
+        effect; at most the closure of `x` is cleared. -/
+theorem removed_child_leaves_parent_unchanged (D : SlabID → DigestFn 4) (w : World) (p : SlabID) (i : Nat)
+    (cx : Ctx) (old : Elem) (w' : World) (cx' : Ctx) (x : SlabID) (c : Cont)
+    (H : WorldOk' D w cx.ctr) (hh : HandleOk w p)
+    (h : w.arrRemove p i cx = .ok (old, w', cx')) (hx : old.pay = .ref x) (hc : w.cont? x = some c) :
+    (∃ a a', w.cont? p = some (.arr a) ∧ w'.cont? p = some (.arr a') ∧ a'.toList = a.toList.eraseIdx i ∧
+      ∀ e ∈ a'.toList, e.pay ≠ .ref x) ∧
+    AList.find? (w'.idxOf p) x = none ∧
+    (DetachedRoot w' x ∧ ∃ c', w'.cont? x = some c' ∧ c'.isInlined = false ∧ c'.vid = c.vid ∧
+      c'.storedElems = c.storedElems) ∧
+    WorldOk' D w' cx'.ctr ∧
+    (∀ fuel cx2 w2 cx2', notifyParent fuel w' x cx2 = .ok (w2, cx2') →
+      cx2' = cx2 ∧ (w2 = w' ∨ w2 = { w' with hinfo := AList.erase w'.hinfo x })) := by
+  obtain ⟨H', _, hrem, _, _⟩ := C10W.worldOk'_arrRemove D w p i cx old w' cx' H hh h
+  obtain ⟨a, a', old0, hpa, hpa', hold0, hl, hpay, hb⟩ := hrem
+  have hx0 : old0.pay = .ref x := by rw [← hpay]; exact hx
+  have hdet := hb.detached hx0 hc
+  refine ⟨⟨a, a', hpa, hpa', hl, fun e he hpe => hdet.1.2 p (holds_arr_of_mem hpa' he hpe)⟩,
+    remove_forgets_index w p i cx old x w' cx' h hx (by rw [hc]; rfl), hdet, H',
+    detached_root_notification_is_noop D w' _ x H' hdet.1⟩
+
 end Atree.C11
